@@ -3,6 +3,8 @@
    (f ID (posts POST...) (runs (run NAME LIMIT...)...))  -> one line per run:
         "ID NAME OK row;row;..."  (row = id|accounthex|num/den|commhex)  | "ID NAME ERR" | "ID NAME QERR"
    LIMIT = (e EXPR) | (qry MULTI (ARG...) (ext ...)) | (begin TXT D) | (end TXT D)
+         | (flag cleared|uncleared|pending|real|actual) | (current TXT) | (now N)
+         | (period B E)   B, E = ~ or (TXT D): the bounds of the joined -p texts
    byte strings are hex, "-" = empty, "~" = absent *)
 let hx a = if a = "-" then [] else str_of_hex a
 let ohx a = if a = "~" then None else Some (hx a)
@@ -20,7 +22,8 @@ let value_of = function
 let ident_of = function
   | "account" -> IAccount | "payee" -> IPayee | "code" -> ICode | "note" -> INote
   | "amount" -> IAmount | "date" -> IDate | "cleared" -> ICleared | "pending" -> IPending
-  | "virtual" -> IVirtual | "real" -> IReal | _ -> failwith "ident"
+  | "virtual" -> IVirtual | "real" -> IReal | "uncleared" -> IUncleared | "actual" -> IActual
+  | _ -> failwith "ident"
 
 let rec expr_of = function
   | L [A "id"; A n] -> EIdent (ident_of n)
@@ -58,15 +61,29 @@ let post_of = function
 
 exception Qerr
 
+type lim = Opt of contrib | Qry of expr option | Per of ((z list * z) option * (z list * z) option) | Now of z
+
+let bound_of = function
+  | A "~" -> None
+  | L [t; d] -> Some (hx (atom t), zatom d)
+  | _ -> failwith "bound"
+
 let limit_of = function
-  | L [A "e"; e] -> [expr_of e]
+  | L [A "e"; e] -> Opt (KLimit (expr_of e))
   | L [A "qry"; m; L args; ext] ->
     (match parse (ext_of ext) (batom m) (List.map (fun a -> hx (atom a)) args) with
-     | Ok (Some e) -> [e]
-     | Ok None -> []
+     | Ok q -> Qry q
      | Err _ -> raise Qerr)
-  | L [A "begin"; t; d] -> [begin_pred (hx (atom t)) (zatom d)]
-  | L [A "end"; t; d] -> [end_pred (hx (atom t)) (zatom d)]
+  | L [A "begin"; t; d] -> Opt (KBegin (hx (atom t), zatom d))
+  | L [A "end"; t; d] -> Opt (KEnd (hx (atom t), zatom d))
+  | L [A "flag"; A "cleared"] -> Opt KCleared
+  | L [A "flag"; A "uncleared"] -> Opt KUncleared
+  | L [A "flag"; A "pending"] -> Opt KPending
+  | L [A "flag"; A "real"] -> Opt KReal
+  | L [A "flag"; A "actual"] -> Opt KActual
+  | L [A "current"; t] -> Opt (KCurrent (hx (atom t)))
+  | L [A "now"; n] -> Now (zatom n)
+  | L [A "period"; b; e] -> Per (bound_of b, bound_of e)
   | _ -> failwith "limit"
 
 let show_post p =
@@ -86,8 +103,12 @@ let handle line =
     List.map (function
         | L (A "run" :: A name :: limits) ->
           (try
-             let ls = List.concat (List.map limit_of limits) in
-             (match report_posts ls ps with
+             let ls = List.map limit_of limits in
+             let opts = List.concat (List.map (function Opt k -> [k] | _ -> []) ls) in
+             let query = List.fold_left (fun acc l -> match l with Qry q -> q | _ -> acc) None ls in
+             let period = List.fold_left (fun acc l -> match l with Per p -> p | _ -> acc) (None, None) ls in
+             let now = List.fold_left (fun acc l -> match l with Now n -> n | _ -> acc) (z_of_int 738000) ls in
+             (match report_with now opts period query ps with
               | Ok r -> id ^ " " ^ name ^ " OK " ^ String.concat ";" (List.map show_post r)
               | Err _ -> id ^ " " ^ name ^ " ERR")
            with Qerr -> id ^ " " ^ name ^ " QERR")
